@@ -47,7 +47,10 @@ def split_case(draw):
             'hnorm': draw(st.sampled_from([0.05, 0.1, 0.2, 0.4])), 'steps': draw(st.integers(1, 3)),
             'scheme': draw(st.sampled_from(['lie', 'strang', 'yoshida', 'kahan_li'])),
             'normalize': draw(st.sampled_from([0, 0, 2])) if klass != 'stochastic' else draw(st.sampled_from([1, 1, 0])),
-            'int_components': draw(st.sampled_from([False, False, False, True])), 'x_scale_exp': draw(st.sampled_from([0, 0, 0, -9, 7]))}
+            'int_components': draw(st.sampled_from([False, False, False, True])), 'x_scale_exp': draw(st.sampled_from([0, 0, 0, -9, 7])),
+            # site-dependent components may carry a different number of interaction terms on every bond
+            'bond_ranks': None if hom or draw(st.booleans()) else [draw(st.sampled_from([1, 2, 3])) for _ in range(d - 1)],
+            'update_in_place': draw(st.sampled_from([False, False, True]))}
 
 
 def components(c, rng):
@@ -70,29 +73,32 @@ def components(c, rng):
         np.fill_diagonal(g, 0)
         return g - np.diag(g.sum(axis=0))
 
-    def site(n):
+    def site(n, rl=None, rm_=None):
+        # rl terms towards the right neighbour (the L of this site), rm_ terms towards the left neighbour (the M of this site)
+        rl = rk if rl is None else rl
+        rm_ = rk if rm_ is None else rm_
         if c['klass'] == 'skew':
             a = rm(n)
-            return a - a.conj().T, [1j * herm(n) for _ in range(rk)], [herm(n) for _ in range(rk)]
+            return a - a.conj().T, [1j * herm(n) for _ in range(rl)], [herm(n) for _ in range(rm_)]
         if c['klass'] == 'stochastic':
-            Ls, Ms = [], []
-            for k in range(rk):
-                if k % 2 == 0:
-                    Ls.append(generator(n))
-                    Ms.append(np.diag(rng.uniform(0, 1, n)))
-                else:
-                    Ls.append(np.diag(rng.uniform(0, 1, n)))
-                    Ms.append(generator(n))
+            Ls = [generator(n) if k % 2 == 0 else np.diag(rng.uniform(0, 1, n)) for k in range(rl)]
+            Ms = [np.diag(rng.uniform(0, 1, n)) if k % 2 == 0 else generator(n) for k in range(rm_)]
             return generator(n), Ls, Ms
-        return rm(n), [rm(n) for _ in range(rk)], [rm(n) for _ in range(rk)]
+        return rm(n), [rm(n) for _ in range(rl)], [rm(n) for _ in range(rm_)]
 
     if c['hom']:
         S, Ls, Ms = site(dims[0])
         Sl, Ll, Ml = [S] * d, [Ls] * d, [Ms] * d
     else:
-        parts = [site(n) for n in dims]
+        br = bond_ranks(c)
+        parts = [site(dims[i], br[i] if i < d - 1 else br[-1], br[i - 1] if i > 0 else br[0]) for i in range(d)]
         Sl, Ll, Ml = [p[0] for p in parts], [p[1] for p in parts], [p[2] for p in parts]
     return Sl, Ll, Ml
+
+
+def bond_ranks(c):
+    d = len(c['dims'])
+    return list(c['bond_ranks']) if c.get('bond_ranks') else [c['rank']] * (d - 1)
 
 
 def assemble(c, Sl, Ll, Ml):
@@ -104,9 +110,8 @@ def assemble(c, Sl, Ll, Ml):
     Ao = np.zeros((N, N), dtype=complex)
     for i in range(d - 1):
         K = np.kron(Sl[i], np.eye(dims[i + 1]))
-        if c['hom'] or True:
-            for k in range(c['rank']):
-                K = K + np.kron(Ll[i][k], Ml[i + 1][k])
+        for k in range(bond_ranks(c)[i]):
+            K = K + np.kron(Ll[i][k], Ml[i + 1][k])
         tgt = Ae if i % 2 == 0 else Ao
         tgt += dense.embed(K, i, dims)
     tgt = Ae if (d - 1) % 2 == 0 else Ao
@@ -119,13 +124,15 @@ def lib_args(c, Sl, Ll, Ml, scale):
     dims, rk = c['dims'], c['rank']
     d = len(dims)
 
+    uniform = not c.get('bond_ranks')
+
     def Larr(ls):
-        if rk == 1 and c['two_d']:
+        if rk == 1 and c['two_d'] and uniform:
             return np.array(ls[0]) * scale
         return np.stack(ls, axis=-1) * scale
 
     def Marr(ms):
-        if rk == 1 and c['two_d']:
+        if rk == 1 and c['two_d'] and uniform:
             return np.array(ms[0])
         return np.stack(ms)
 
@@ -213,7 +220,28 @@ def body_structure(c):
             require(abs(np.linalg.norm(got) - 1) <= 1e-9, 'unit_norm', '2-norm %.12f' % np.linalg.norm(got))
         if p == 1:
             require(abs(np.sum(got) - 1) <= 1e-9, 'unit_norm', '1-norm %.12f' % abs(np.sum(got)))
+    if c.get('update_in_place') and not intc and p == 0:
+        # the caller re-uses the component arrays for the next parameter set (a field sweep): the SAME array objects, updated in
+        # place, describe a different operator now, and one step must be the propagator of that operator
+        al, be = 0.6, -1.4
+        for arr in (passed[0] if isinstance(passed[0], list) else [passed[0]]):
+            arr *= al
+        for arr in (passed[1] if isinstance(passed[1], list) else [passed[1]]):
+            arr *= be
+        f = {'lie': ode.lie_splitting, 'strang': ode.strang_splitting, 'yoshida': ode.yoshida_splitting, 'kahan_li': ode.kahan_li_splitting}[c['scheme']]
+        sol2 = f(passed[0], passed[1], passed[2], passed[3], x0, h, 1, max_rank=200, normalize=0)
+        Sl2 = [al * S_ for S_ in Sl]
+        Ll2 = [[be * L_ for L_ in Ls_] for Ls_ in Ll]
+        Ae2, Ao2 = assemble(c, Sl2, Ll2, Ml)
+        P2 = one_step(c['scheme'], Ae2 * scale, Ao2 * scale, h)
+        v2 = P2 @ dense.matrix(x0.cores).reshape(-1).astype(complex)
+        got2 = dense.matrix(sol2[1].cores).reshape(-1)
+        close(got2, v2, 1e-8, max(np.linalg.norm(v2), 1e-300), 'propagator', '%s step after the component arrays were updated in place' % c['scheme'])
     lab = {c['scheme'], c['klass'], 'normalize%d' % p, 'hom' if c['hom'] else 'inhom', 'rank%d' % c['rank']}
+    if c.get('update_in_place') and not intc and p == 0:
+        lab.add('components_updated_in_place')
+    if c.get('bond_ranks') and len(set(c['bond_ranks'])) > 1:
+        lab.add('bond_dependent_interaction_rank')
     if c['cplx']:
         lab.add('complex')
     if d % 2 == 0:
